@@ -61,9 +61,20 @@ def run_capture_arms(rec, S):
                 calls_add = any(isinstance(y, dict) and y.get("e") == "mcall" and y.get("m") == "add_capture" for y in walk_expr(a["body"]))
                 (cap if calls_add else nocap).update(vs)
             parts.append((x["line"], frozenset(nocap), frozenset(cap)))
-    if len(parts) < 2:
-        rec.anchor_lost("F4.repl-capture", "two `match state` sites in resolve_capture")
+    # every capture slot is allocated under such a dispatch (one merged dispatch for both the
+    # direct-parent and the further-out case is the best form of agreement)
+    total_adds = sum(1 for y in walk_expr(f.get("body") or {}) if isinstance(y, dict) and y.get("e") == "mcall" and y.get("m") == "add_capture")
+    guarded_adds = 0
+    for x in walk_expr(f.get("body") or {}):
+        if isinstance(x, dict) and x.get("e") == "match" and synq.src(x.get("on")).strip() == "state":
+            guarded_adds += sum(1 for a in x["arms"] for y in walk_expr(a["body"]) if isinstance(y, dict) and y.get("e") == "mcall" and y.get("m") == "add_capture")
+    if not parts or total_adds == 0:
+        rec.anchor_lost("F4.repl-capture", "a `match state` dispatch around add_capture in resolve_capture")
         return
+    okg = guarded_adds == total_adds
+    rec.inst(R, "resolve_capture: every add_capture sits under a `match state` dispatch", ok=okg, loc=L(COMPILER, parts[0][0]))
+    if not okg:
+        rec.finding(R, "F4.repl-capture/unguarded-add", "Compiler::resolve_capture allocates a capture slot (%d of %d add_capture calls) outside any `match state` dispatch: module/global symbols found that way get a capture index nothing fills" % (total_adds - guarded_adds, total_adds), loc=L(COMPILER, parts[0][0]), fn="resolve_capture")
     # and they agree with how the variable is then accessed: a state that variable_get/variable_set read through the
     # module table (GetModSym) never needs a capture slot
     modstates = set()
